@@ -4,78 +4,116 @@ import LunarVerif.Proofs.C10
 
 Property theorems only (helpers live in `Proofs/C10.lean`).  The model is the labelled transition
 system of `Model/C10.lean` (`step` = one critical section / one timer firing / one clock tick of one
-thread of `DelayedPriorityQueue`); a *schedule* is any `List Label`, `run` executes it from the
-freshly constructed queue and fails (`none`) when a step is not enabled.  All statements quantify
-over every configuration (quota, window size, queue size), every start instant and EVERY schedule —
-every interleaving of enqueuers, the roll-over goroutine, TTL timers and clock ticks, including
-timers that fire late.  `safe`, `fair`, `holds`, `clean` are the Spec predicates evaluated by the
-judge on the real queue's answers (`Spec/C10.lean`).
+thread of `DelayedPriorityQueue`, AFTER the repairs F10a and F10b); a *schedule* is any
+`List Label`, `run` executes it from the freshly constructed queue and fails (`none`) when a step is
+not enabled.  All statements quantify over every configuration (quota, window size, queue size),
+every start instant and EVERY schedule — every interleaving of enqueuers, the roll-over goroutine,
+TTL timers and clock ticks, including timers that fire late and enqueuers that are slow to reach
+their `select`.  `safe`, `fair`, `holds` are the Spec predicates evaluated by the judge on the real
+queue's answers (`Spec/C10.lean`).  No excluded class is left: `spec_holds` is unconditional.
 -/
 namespace LunarVerif.C10
 
 /-- Observer state after a history. -/
 def observe (cfg : Cfg) (t0 : Nat) (es : List Ev) : Obs := es.foldl (obsStep cfg) (Obs.init cfg t0)
 
-/-- Connection theorem, safety part, ALL schedules: per-window quota, queue-size bound, rejection
-    only when full / TTL elapsed, well-formed events. -/
+/-- Connection theorem, whole property, ALL schedules: the judge predicate (`safe ∧ fair`: quota per
+    aligned window, queue-size bound, rejection only when full / TTL elapsed without a hand-off,
+    release order, no stranding) is true of the history of every model run. -/
+theorem spec_holds (cfg : Cfg) (t0 : Nat) (ls : List Label) (s : State) (es : List Ev)
+    (hrun : run cfg (init cfg t0) ls = some (s, es)) : holds cfg t0 es = true := by
+  obtain ⟨h1, h2, _⟩ := run_inv ls (inv_init cfg t0) hrun
+  simp [holds, h1, h2]
+
+/-- Safety part alone. -/
 theorem safe_holds (cfg : Cfg) (t0 : Nat) (ls : List Label) (s : State) (es : List Ev)
     (hrun : run cfg (init cfg t0) ls = some (s, es)) : safe cfg t0 es = true :=
   (run_inv ls (inv_init cfg t0) hrun).1
-
-/-- Connection theorem, whole property: the judge predicate is true of every model run whose
-    history contains no event of the class of F10a (roll-over while a pushed request has not yet
-    reached its `select`) or F10b (newcomer takes a slot ahead of waiters before the window's
-    roll-over ran). -/
-theorem spec_holds_partial (cfg : Cfg) (t0 : Nat) (ls : List Label) (s : State) (es : List Ev)
-    (hrun : run cfg (init cfg t0) ls = some (s, es)) (hclean : clean cfg t0 es = true) :
-    holds cfg t0 es = true := by
-  have h1 := (run_inv ls (inv_init cfg t0) hrun).1
-  have h2 := (run_finv ls (inv_init cfg t0) (finv_init cfg t0) hrun hclean).1
-  simp [holds, h1, h2]
 
 /-- Grants (immediate passes + hand-offs) whose instant lies in any one aligned window never
     exceed the window quota — all schedules. -/
 theorem releases_le_quota (cfg : Cfg) (t0 : Nat) (ls : List Label) (s : State) (es : List Ev)
     (hrun : run cfg (init cfg t0) ls = some (s, es)) (w : Nat) :
     grantsIn cfg w (observe cfg t0 es).grants ≤ cfg.quota :=
-  (run_inv ls (inv_init cfg t0) hrun).2.quota w
+  (run_inv ls (inv_init cfg t0) hrun).2.2.quota w
 
 /-- The number of requests inside `Enqueue` that were queued and have not returned yet (the sum of
-    `Counts()`) never exceeds the queue size: the size test and the push are one critical section —
-    all schedules. -/
+    `Counts()`) never exceeds the queue size — all schedules. -/
 theorem waiters_le_size (cfg : Cfg) (t0 : Nat) (ls : List Label) (s : State) (es : List Ev)
     (hrun : run cfg (init cfg t0) ls = some (s, es)) :
     waitingCount s.reqs ≤ cfg.size ∧ waitingCount (observe cfg t0 es).reqs ≤ cfg.size := by
-  have inv := (run_inv ls (inv_init cfg t0) hrun).2
+  have inv := (run_inv ls (inv_init cfg t0) hrun).2.2
   exact ⟨inv.size, by rw [observe, inv.reqs]; exact inv.size⟩
 
-/-- Release order, any state (reachable or not), any roll-over: if `a` is handed off while `b`,
-    which is in the heap and parked in its `select`, is not, then `b` is not strictly before `a`
-    for (priority, timestamp). -/
-theorem release_order (cfg : Cfg) (s s' : State) (rel : List Nat) (a b : Nat)
-    (hstep : step cfg s .roll = some (s', .roll rel))
-    (ha : a ∈ rel) (hb : b ∈ s.heap) (hpark : (phaseOf s.reqs b).isParked = true) (hnot : b ∉ rel) :
-    keyLt (getReq s.reqs b) (getReq s.reqs a) = false := by
-  obtain ⟨c, f⟩ := roll_facts hstep
-  exact f.order a ha b (f.keep b hb hpark hnot)
+/-- Release order, ALL schedules, every batch of hand-offs of the history (by a roll-over or by an
+    Enqueue serving the waiters first): if `a` is handed off while `b` — any request still waiting
+    for its turn, whether parked in its `select`, still on its way to it, or with its TTL timer just
+    fired — is not, then `b` is not strictly before `a` for (priority, timestamp). -/
+theorem release_order (cfg : Cfg) (t0 : Nat) (ls : List Label) (s : State)
+    (pre post : List Ev) (e : Ev) (rel : List Nat) (a b : Nat)
+    (hrun : run cfg (init cfg t0) ls = some (s, pre ++ e :: post)) (he : evRel e = some rel)
+    (ha : a ∈ rel) (hb : (phaseOf (observe cfg t0 pre).reqs b).eligible = true) (hnot : b ∉ rel) :
+    keyLt (getReq (observe cfg t0 pre).reqs b) (getReq (observe cfg t0 pre).reqs a) = false := by
+  have hf : fairOk cfg (observe cfg t0 pre) e = true :=
+    fairFrom_split cfg pre e post _ (run_inv ls (inv_init cfg t0) hrun).2.1
+  have hrf : relFair cfg (observe cfg t0 pre) rel = true := by
+    cases e <;> simp only [evRel, Option.some.injEq, reduceCtorEq] at he <;> subst he <;> exact hf
+  simp only [relFair, Bool.and_eq_true, Bool.or_eq_true, List.all_eq_true, List.contains_iff_mem,
+    Bool.not_eq_true'] at hrf
+  rcases hrf.1 b (mem_eligIds.mpr hb) with h | h
+  · exact absurd h hnot
+  · exact h a ha
+
+/-- No stranding, ALL schedules, every batch of hand-offs of the history: a request still waiting
+    for its turn when a roll-over (or a newcomer's Enqueue) runs is handed off, unless the quota of
+    the current window is used up by this batch — whether or not it has reached its `select`. -/
+theorem no_stranding (cfg : Cfg) (t0 : Nat) (ls : List Label) (s : State)
+    (pre post : List Ev) (e : Ev) (rel : List Nat) (b : Nat)
+    (hrun : run cfg (init cfg t0) ls = some (s, pre ++ e :: post)) (he : evRel e = some rel)
+    (hb : (phaseOf (observe cfg t0 pre).reqs b).eligible = true) :
+    b ∈ rel ∨
+    grantsIn cfg ((observe cfg t0 pre).now / cfg.win) (observe cfg t0 pre).grants + rel.length = cfg.quota := by
+  have hf : fairOk cfg (observe cfg t0 pre) e = true :=
+    fairFrom_split cfg pre e post _ (run_inv ls (inv_init cfg t0) hrun).2.1
+  have hrf : relFair cfg (observe cfg t0 pre) rel = true := by
+    cases e <;> simp only [evRel, Option.some.injEq, reduceCtorEq] at he <;> subst he <;> exact hf
+  simp only [relFair, Bool.and_eq_true, Bool.or_eq_true, List.all_eq_true, List.contains_iff_mem,
+    decide_eq_true_eq] at hrf
+  rcases hrf.2 with h | h
+  · exact Or.inl (h b (mem_eligIds.mpr hb))
+  · exact Or.inr h
+
+/-- A newcomer takes a slot at once only when, after it served the queue, nobody is left waiting
+    for a turn — all schedules. -/
+theorem pass_only_if_nobody_waits (cfg : Cfg) (t0 : Nat) (ls : List Label) (s : State)
+    (pre post : List Ev) (p ttl : Nat) (rel : List Nat) (b : Nat)
+    (hrun : run cfg (init cfg t0) ls = some (s, pre ++ .enq p ttl .pass rel :: post))
+    (hb : (phaseOf (observe cfg t0 pre).reqs b).eligible = true) : b ∈ rel := by
+  have hs : safeOk cfg (observe cfg t0 pre) (.enq p ttl .pass rel) = true :=
+    safeFrom_split cfg pre _ post _ (run_inv ls (inv_init cfg t0) hrun).1
+  simp only [safeOk, Bool.and_eq_true, decide_eq_true_eq] at hs
+  rcases no_stranding cfg t0 ls s pre post _ rel b hrun rfl hb with h | h
+  · exact h
+  · omega
 
 /-- A request is rejected only because the queue was full (and the window quota used up), and is
     answered `false` after waiting only when its TTL timer fired at or after its deadline (deadline =
-    instant it entered the select + TTL) — all schedules, every position of the history. -/
+    instant it entered the select + TTL) and no hand-off had reached it when it re-took the mutex —
+    all schedules, every position of the history. -/
 theorem rejected_only_if_full_or_ttl (cfg : Cfg) (t0 : Nat) (ls : List Label) (s : State)
     (pre post : List Ev) (e : Ev)
     (hrun : run cfg (init cfg t0) ls = some (s, pre ++ e :: post)) :
-    (∀ p ttl, e = .enq p ttl .full →
+    (∀ p ttl rel, e = .enq p ttl .full rel →
         cfg.size ≤ waitingCount (observe cfg t0 pre).reqs ∧
-        cfg.quota ≤ grantsIn cfg ((observe cfg t0 pre).now / cfg.win) (observe cfg t0 pre).grants) ∧
+        cfg.quota ≤ grantsIn cfg ((observe cfg t0 pre).now / cfg.win) (observe cfg t0 pre).grants + rel.length) ∧
     (∀ r, e = .expire r → ∃ dl, phaseOf (observe cfg t0 pre).reqs r = .parked dl ∧ dl ≤ (observe cfg t0 pre).now) ∧
     (∀ r, e = .finish r false → phaseOf (observe cfg t0 pre).reqs r = .wokeTTL) := by
   have h : safeOk cfg (observe cfg t0 pre) e = true :=
     safeFrom_split cfg pre e post _ (safe_holds cfg t0 ls s _ hrun)
   refine ⟨?_, ?_, ?_⟩
-  · intro p ttl he; subst he
+  · intro p ttl rel he; subst he
     simp only [safeOk, Bool.and_eq_true, decide_eq_true_eq] at h
-    exact ⟨h.2, h.1⟩
+    exact ⟨h.2, h.1.2⟩
   · intro r he; subst he
     simp only [safeOk] at h
     split at h
@@ -84,175 +122,112 @@ theorem rejected_only_if_full_or_ttl (cfg : Cfg) (t0 : Nat) (ls : List Label) (s
   · intro r he; subst he
     simpa [safeOk] using h
 
-/-- No stranding, any state, any roll-over: a waiter that is in the heap and PARKED in its
-    `select` when the roll-over runs is released, unless the window quota is used up. -/
-theorem no_stranding_partial (cfg : Cfg) (s s' : State) (rel : List Nat) (b : Nat)
-    (hstep : step cfg s .roll = some (s', .roll rel))
-    (hb : b ∈ s.heap) (hpark : (phaseOf s.reqs b).isParked = true) :
-    b ∈ rel ∨ cfg.quota ≤ s'.counter := by
-  obtain ⟨c, f⟩ := roll_facts hstep
-  by_cases hn : b ∈ rel
-  · exact Or.inl hn
-  · right
-    rcases f.stop (Nat.le_refl _) with h | h
-    · exact h
-    · have := f.keep b hb hpark hn
-      simp only at h this
-      rw [h] at this
-      simp at this
+/-- Every request still waiting for its turn is in the heap — all schedules (nothing is ever
+    dropped by a failed hand-off any more). -/
+theorem waiting_in_heap (cfg : Cfg) (t0 : Nat) (ls : List Label) (s : State) (es : List Ev)
+    (hrun : run cfg (init cfg t0) ls = some (s, es))
+    (b : Nat) (hel : (phaseOf s.reqs b).eligible = true) : b ∈ s.heap :=
+  (run_inv ls (inv_init cfg t0) hrun).2.2.inHeap b hel
 
-/-- Outside the classes of F10a/F10b every request still waiting for its turn is in the heap, so
-    `no_stranding_partial` and `release_order` apply to it at the next roll-over. -/
-theorem waiting_in_heap_partial (cfg : Cfg) (t0 : Nat) (ls : List Label) (s : State) (es : List Ev)
-    (hrun : run cfg (init cfg t0) ls = some (s, es)) (hclean : clean cfg t0 es = true)
-    (b : Nat) (hlive : (phaseOf s.reqs b).live = true) : b ∈ s.heap :=
-  (run_finv ls (inv_init cfg t0) (finv_init cfg t0) hrun hclean).2.inHeap b hlive
+/-- Per-step form, ANY state (reachable or not), any serving step (roll-over or Enqueue): a request
+    that is in the heap and still waiting for its turn is handed off, or the step ends with the
+    window quota used up; and whoever is handed off is not worse than anybody left in the heap. -/
+theorem serve_step (cfg : Cfg) (s s' : State) (l : Label) (e : Ev) (rel : List Nat) (b : Nat)
+    (hstep : step cfg s l = some (s', e)) (he : evRel e = some rel)
+    (hb : b ∈ s.heap) (hel : (phaseOf s.reqs b).eligible = true) (hnot : b ∉ rel) :
+    cfg.quota ≤ s'.counter ∧ ∀ a ∈ rel, keyLt (getReq s.reqs b) (getReq s.reqs a) = false := by
+  obtain ⟨c, L, f, _, hc, _⟩ := serve_facts hstep he
+  have hk := f.keep b hb hel hnot
+  refine ⟨?_, fun a ha => f.order a ha b hk⟩
+  rcases f.stop (Nat.le_refl _) with h | h
+  · rcases hc with hc | hc <;> omega
+  · rw [h] at hk; simp at hk
 
-/-- "Dropped and never retried", any state, any step of any thread: a request that is not in the
-    heap is neither put back nor handed off — so a waiter dropped by a failed hand-off can only leave
-    through its TTL. -/
-theorem dropped_never_released (cfg : Cfg) (s s' : State) (l : Label) (e : Ev) (b : Nat)
-    (hstep : step cfg s l = some (s', e)) (hb : b < s.reqs.length) (hout : b ∉ s.heap) :
-    b ∉ s'.heap ∧ ∀ rel, e = .roll rel → b ∉ rel := by
-  cases l with
-  | tick d =>
-    simp only [step, Option.some.injEq, Prod.mk.injEq] at hstep
-    obtain ⟨rfl, rfl⟩ := hstep
-    exact ⟨hout, by simp⟩
-  | enq prio ttl =>
-    simp only [step] at hstep
-    split at hstep
-    · simp only [Option.some.injEq, Prod.mk.injEq] at hstep
-      obtain ⟨rfl, rfl⟩ := hstep
-      exact ⟨hout, by simp⟩
-    · split at hstep
-      · simp only [Option.some.injEq, Prod.mk.injEq] at hstep
-        obtain ⟨rfl, rfl⟩ := hstep
-        exact ⟨hout, by simp⟩
-      · simp only [Option.some.injEq, Prod.mk.injEq] at hstep
-        obtain ⟨rfl, rfl⟩ := hstep
-        refine ⟨?_, by simp⟩
-        simp only [List.mem_append, List.mem_singleton, not_or]
-        exact ⟨hout, by omega⟩
-  | park r =>
-    simp only [step] at hstep
-    split at hstep
-    · simp only [Option.some.injEq, Prod.mk.injEq] at hstep
-      obtain ⟨rfl, rfl⟩ := hstep
-      exact ⟨hout, by simp⟩
-    · simp at hstep
-  | expire r =>
-    simp only [step] at hstep
-    split at hstep
-    · split at hstep
-      · simp only [Option.some.injEq, Prod.mk.injEq] at hstep
-        obtain ⟨rfl, rfl⟩ := hstep
-        exact ⟨hout, by simp⟩
-      · simp at hstep
-    · simp at hstep
-  | finish r =>
-    simp only [step] at hstep
-    split at hstep
-    · simp only [Option.some.injEq, Prod.mk.injEq] at hstep
-      obtain ⟨rfl, rfl⟩ := hstep
-      exact ⟨hout, by simp⟩
-    · simp only [Option.some.injEq, Prod.mk.injEq] at hstep
-      obtain ⟨rfl, rfl⟩ := hstep
-      exact ⟨hout, by simp⟩
-    · simp at hstep
-  | roll =>
-    have hroll : ∃ rel, e = .roll rel := by
-      simp only [step] at hstep
-      split at hstep
-      · simp only [Option.some.injEq, Prod.mk.injEq] at hstep
-        exact ⟨_, hstep.2.symm⟩
-      · simp at hstep
-    obtain ⟨rel, rfl⟩ := hroll
-    obtain ⟨c, f⟩ := roll_facts hstep
-    refine ⟨fun h => hout (f.heapSub b h), ?_⟩
-    intro rel' he h
-    simp only [Ev.roll.injEq] at he
-    subst he
-    exact hout (f.relSub b h)
+/-- Plugin level, one queue per remedy key: `k` first requests for a key arriving at one instant on
+    its (single, fresh) queue — in any order, the clock standing still — yield at most `quota`
+    immediate passes and at most `size` waiting requests.  (`burstOk`, the judge predicate for the
+    plugin-level burst cases, asks exactly this of the real plugin, plus "one queue was created".) -/
+theorem burst_bounds (cfg : Cfg) (t0 p ttl k : Nat) (s : State) (es : List Ev)
+    (hrun : run cfg (init cfg t0) (List.replicate k (.enq p ttl)) = some (s, es)) :
+    passCount es ≤ cfg.quota ∧ waitingCount s.reqs ≤ cfg.size := by
+  refine ⟨?_, (waiters_le_size cfg t0 _ s es hrun).1⟩
+  have h1 := passCount_le_grants cfg es (Obs.init cfg t0) (run_replicate_enq k hrun)
+  have h2 := releases_le_quota cfg t0 _ s es hrun (t0 / cfg.win)
+  have : (Obs.init cfg t0).now = t0 := rfl
+  rw [this] at h1
+  unfold observe at h2
+  omega
 
-/-! ### Witnesses: the unchanged code violates the full-strength property -/
+/-! ### Non-vacuity (and the former violation witnesses, now satisfying the property) -/
+
+/-- A burst of 8 on quota 2 / size 3: 2 pass, 3 wait, 3 are refused. -/
+example : ∃ s es, run ⟨2, 1000, 3⟩ (init ⟨2, 1000, 3⟩ 5500) (List.replicate 8 (.enq 0 2000)) = some (s, es) ∧
+    passCount es = 2 ∧ waitingCount s.reqs = 3 ∧ burstOk ⟨2, 1000, 3⟩ 8 1 2 3 3 = true := by
+  refine ⟨_, _, rfl, ?_⟩
+  decide
+
 
 /-- quota 1 per 1000 ns window, queue size 5, start at 10000. -/
 def wCfg : Cfg := ⟨1, 1000, 5⟩
 
-/-- F10a: request 1 is pushed; the roll-over pops it while it is between unlock and select (send
-    fails, dropped); it then parks, three windows with free quota go by, its TTL fires. -/
-def lostHandoff : List Label :=
-  [.enq 0 5000, .tick 1, .enq 0 5000, .tick 999, .roll, .park 1, .tick 1000, .roll, .tick 1000, .roll,
-   .tick 3000, .expire 1, .finish 1]
+/-- Former F10a witness: request 1 is pushed and the roll-over runs while it is still between unlock
+    and select.  The hand-off is buffered; when request 1 reaches its select it returns true. -/
+def earlyHandoff : List Label :=
+  [.enq 0 5000, .tick 1, .enq 0 5000, .tick 999, .roll, .park 1, .finish 1]
 
-/-- The lost hand-off: a schedule after which request 1 has been answered `false` although no
-    grant at all was made in the windows 12 and 13 it waited through (quota 1 each), nobody else was
-    waiting, and the full-strength property is false on the history. -/
-theorem lost_handoff_witness :
-    ∃ s es, run wCfg (init wCfg 10000) lostHandoff = some (s, es) ∧
-      phaseOf s.reqs 1 = .retF ∧
-      grantsIn wCfg 12 (observe wCfg 10000 es).grants = 0 ∧
-      grantsIn wCfg 13 (observe wCfg 10000 es).grants = 0 ∧
-      waitingCount s.reqs = 0 ∧
-      safe wCfg 10000 es = true ∧ fair wCfg 10000 es = false := by
+example : ∃ s es, run wCfg (init wCfg 10000) earlyHandoff = some (s, es) ∧
+    phaseOf s.reqs 1 = .retT ∧ es.contains (.roll [1]) = true ∧ holds wCfg 10000 es = true ∧
+    grantsIn wCfg 11 (observe wCfg 10000 es).grants = 1 := by
   refine ⟨_, _, rfl, ?_⟩
   decide
 
-/-- The full-strength statement (`spec_holds_partial` without its `clean` hypothesis) is false. -/
-theorem no_stranding_violation_witness :
-    ∃ cfg t0 ls s es, run cfg (init cfg t0) ls = some (s, es) ∧ ¬ holds cfg t0 es = true :=
-  ⟨wCfg, 10000, lostHandoff, _, _, rfl, by decide⟩
-
-/-- F10b: request 1 (priority 0) is queued and parked; the clock enters the next window; request 2
-    (priority 3) calls Enqueue before the roll-over ran and takes the window's only slot. -/
+/-- Former F10b witness: request 1 (priority 0) is queued and parked; the clock enters the next
+    window; request 2 (priority 3) calls Enqueue before the roll-over ran: it serves request 1 first
+    and is queued itself. -/
 def lateRollover : List Label :=
-  [.enq 0 5000, .tick 1, .enq 0 5000, .park 1, .tick 999, .enq 3 5000, .roll]
+  [.enq 0 5000, .tick 1, .enq 0 5000, .park 1, .tick 999, .enq 3 5000, .finish 1, .roll]
 
-/-- Overtaking: no roll-over ever ran with a request in the gap (no F10a event), yet a newcomer of
-    worse priority is granted while request 1 keeps waiting, and the roll-over releases nobody. -/
-theorem release_order_violation_witness :
-    ∃ s es, run wCfg (init wCfg 10000) lateRollover = some (s, es) ∧
-      phaseOf s.reqs 2 = .passed ∧ (phaseOf s.reqs 1).isParked = true ∧
-      es.getLast? = some (.roll []) ∧
-      safe wCfg 10000 es = true ∧ fair wCfg 10000 es = false := by
+example : ∃ s es, run wCfg (init wCfg 10000) lateRollover = some (s, es) ∧
+    phaseOf s.reqs 1 = .retT ∧ phaseOf s.reqs 2 = .gap ∧
+    es.contains (.enq 3 5000 .push [1]) = true ∧ es.getLast? = some (.roll []) ∧
+    holds wCfg 10000 es = true := by
   refine ⟨_, _, rfl, ?_⟩
   decide
 
-/-! ### Non-vacuity -/
-
-/-- A clean schedule with real queueing: requests 1 (priority 2) and 2 (priority 1) wait; the first
-    roll-over releases request 2 (better priority although it arrived later), the next one request 1. -/
+/-- Real queueing: requests 1 (priority 2) and 2 (priority 1) wait; the first roll-over releases
+    request 2 (better priority although it arrived later), the next one request 1; here the
+    hypotheses of `release_order` / `no_stranding` are met with `b = 1` at the first roll-over. -/
 def orderly : List Label :=
   [.enq 0 5000, .tick 1, .enq 2 5000, .park 1, .tick 1, .enq 1 5000, .park 2, .tick 998, .roll,
    .finish 2, .tick 1000, .roll, .finish 1]
 
-example : ∃ s es, run wCfg (init wCfg 10000) orderly = some (s, es) ∧
-    clean wCfg 10000 es = true ∧ holds wCfg 10000 es = true ∧
+example : ∃ s es, run wCfg (init wCfg 10000) orderly = some (s, es) ∧ holds wCfg 10000 es = true ∧
     es.filter (fun e => match e with | .roll _ => true | _ => false) = [.roll [2], .roll [1]] ∧
+    (phaseOf (observe wCfg 10000 (es.take 8)).reqs 1).eligible = true ∧
     grantsIn wCfg 10 (observe wCfg 10000 es).grants = 1 ∧
     grantsIn wCfg 11 (observe wCfg 10000 es).grants = 1 := by
   refine ⟨_, _, rfl, ?_⟩
   decide
 
-/-- Hypotheses of `release_order` / `no_stranding_partial` are met at the first roll-over of
-    `orderly`: request 2 is released while request 1 is parked, in the heap and stays behind. -/
-example : ∃ s s' es, run wCfg (init wCfg 10000) (orderly.take 8) = some (s, es) ∧
-    step wCfg s .roll = some (s', .roll [2]) ∧ 1 ∈ s.heap ∧ (phaseOf s.reqs 1).isParked = true ∧
-    wCfg.quota ≤ s'.counter := by
-  refine ⟨_, _, _, rfl, rfl, ?_⟩
+/-- A hand-off that races with the TTL: request 1's timer fires, but the roll-over hands off before
+    request 1 re-takes the mutex — it returns true and the grant is not wasted. -/
+example : ∃ s es, run wCfg (init wCfg 10000)
+      [.enq 0 5000, .tick 1, .enq 0 500, .park 1, .tick 999, .expire 1, .roll, .finish 1] = some (s, es) ∧
+    phaseOf s.reqs 1 = .retT ∧ holds wCfg 10000 es = true := by
+  refine ⟨_, _, rfl, ?_⟩
   decide
 
-/-- Hypotheses of `dropped_never_released` are met by a LIVE waiter: after the first roll-over of
-    `lostHandoff` request 1 is still waiting for its turn but is no longer in the heap. -/
-example : ∃ s es, run wCfg (init wCfg 10000) (lostHandoff.take 5) = some (s, es) ∧
-    1 < s.reqs.length ∧ 1 ∉ s.heap ∧ (phaseOf s.reqs 1).live = true := by
+/-- …and if request 1 re-takes the mutex first it is marked expired, answered false, and the
+    roll-over skips it without spending quota. -/
+example : ∃ s es, run wCfg (init wCfg 10000)
+      [.enq 0 5000, .tick 1, .enq 0 500, .park 1, .tick 999, .expire 1, .finish 1, .roll] = some (s, es) ∧
+    phaseOf s.reqs 1 = .retF ∧ s.counter = 0 ∧ es.getLast? = some (.roll []) ∧ holds wCfg 10000 es = true := by
   refine ⟨_, _, rfl, ?_⟩
   decide
 
 /-- The queue-size bound is tight and a full queue rejects: size 1, the third request is refused. -/
 example : ∃ s es, run ⟨1, 1000, 1⟩ (init ⟨1, 1000, 1⟩ 10000) [.enq 0 50, .tick 1, .enq 0 50, .tick 1, .enq 0 50]
-      = some (s, es) ∧ waitingCount s.reqs = 1 ∧ es.getLast? = some (.enq 0 50 .full) := by
+      = some (s, es) ∧ waitingCount s.reqs = 1 ∧ es.getLast? = some (.enq 0 50 .full []) := by
   refine ⟨_, _, rfl, ?_⟩
   decide
 
